@@ -861,13 +861,90 @@ static void run_kern_case(const char *line)
   gfree_all();
   free(ibuf);
 }
+
+/* value-level calls of the down/up-sampling kernels: rows are exactly as long as alloc_sarray makes them
+   (padded to a multiple of 64 samples) and end at a PROT_NONE page */
+typedef void (*ds_fn)(unsigned int, int, unsigned int, unsigned int, SARR, SARR);
+typedef void (*fu_fn)(int, unsigned int, SARR, SARR *);
+extern void jsimd_h2v1_downsample_sse2(unsigned int, int, unsigned int, unsigned int, SARR, SARR);
+extern void jsimd_h2v2_downsample_sse2(unsigned int, int, unsigned int, unsigned int, SARR, SARR);
+extern void jsimd_h2v1_downsample_avx2(unsigned int, int, unsigned int, unsigned int, SARR, SARR);
+extern void jsimd_h2v2_downsample_avx2(unsigned int, int, unsigned int, unsigned int, SARR, SARR);
+extern void jsimd_h2v1_fancy_upsample_sse2(int, unsigned int, SARR, SARR *);
+extern void jsimd_h2v2_fancy_upsample_sse2(int, unsigned int, SARR, SARR *);
+extern void jsimd_h2v1_fancy_upsample_avx2(int, unsigned int, SARR, SARR *);
+extern void jsimd_h2v2_fancy_upsample_avx2(int, unsigned int, SARR, SARR *);
+
+static size_t unhex(const char *line, const char *key, uint8_t *dst, size_t cap)
+{
+  char pat[16]; snprintf(pat, sizeof pat, " %s=", key);
+  const char *p = strstr(line, pat); size_t n = 0;
+  if (!p) return 0;
+  for (p += strlen(pat); p[0] && p[1] && p[0] != ' ' && p[0] != '\n' && n < cap; p += 2) {
+    unsigned v; if (sscanf(p, "%2x", &v) != 1) break; dst[n++] = (uint8_t)v;
+  }
+  return n;
+}
+
+static void run_kv_case(const char *line)
+{
+  char kn[8], isa[8];
+  gets_(line, "k", kn, sizeof kn); gets_(line, "isa", isa, sizeof isa);
+  int n = geti(line, "n", 1), avx2 = !strcmp(isa, "avx2");
+  int isds = kn[0] == 'd', two = kn[2] == '2';
+  if (n < 1 || n > 2000) { printf("?\n"); return; }
+  size_t oc = isds ? (size_t)((n + 15) / 16) * 8 : 0;
+  size_t inw = isds ? 2 * oc : (size_t)n, outw = isds ? oc : 2 * (size_t)n;
+  size_t pin = (inw + 63) / 64 * 64, pout = (outw + 63) / 64 * 64;
+  gbuf gi[3], go[2]; uint8_t *ir[3], *orow[2];
+  static const char *keys[3] = { "r0", "r1", "r2" };
+  int nin = isds ? (two ? 2 : 1) : (two ? 3 : 1), nout = (!isds && two) ? 2 : 1;
+  for (int i = 0; i < nin; i++) {
+    galloc(&gi[i], pin, 1); memset(gi[i].buf, 0xEE, pin); gslack_fill(&gi[i]);
+    unhex(line, keys[i], gi[i].buf, (size_t)n); ir[i] = gi[i].buf;
+  }
+  for (int i = 0; i < nout; i++) { galloc(&go[i], pout, 1); memset(go[i].buf, 0x5A, pout); gslack_fill(&go[i]); orow[i] = go[i].buf; }
+  int sj;
+  in_call = 1;
+  sj = sigsetjmp(jb, 1);
+  if (sj == 0) {
+    arm(5000);
+    if (isds) {
+      ds_fn f = two ? (avx2 ? jsimd_h2v2_downsample_avx2 : jsimd_h2v2_downsample_sse2) : (avx2 ? jsimd_h2v1_downsample_avx2 : jsimd_h2v1_downsample_sse2);
+      f((unsigned)n, two ? 2 : 1, 1, (unsigned)(oc / 8), ir, orow);
+    } else if (!two) {
+      SARR od = orow;
+      (avx2 ? jsimd_h2v1_fancy_upsample_avx2 : jsimd_h2v1_fancy_upsample_sse2)(1, (unsigned)n, ir, &od);
+    } else {
+      /* input_data[-1], [0], [1]: row above, current, below; max_v_samp_factor 2 -> two output rows */
+      SARR od = orow;
+      (avx2 ? jsimd_h2v2_fancy_upsample_avx2 : jsimd_h2v2_fancy_upsample_sse2)(2, (unsigned)n, ir + 1, &od);
+    }
+  }
+  in_call = 0; arm(0);
+  if (sj == 3) printf("hang\n");
+  else if (sj == 1) {
+    int fb = -1; long off = 0;
+    for (int i = 0; i < nactive; i++)
+      if (fault_addr >= (uintptr_t)active[i]->map && fault_addr < (uintptr_t)active[i]->map + active[i]->maplen) { fb = i; off = (long)(fault_addr - (uintptr_t)active[i]->buf); }
+    printf("segv buf=%d off=%ld pass=0\n", fb, off);
+  } else {
+    printf("ok");
+    for (int r = 0; r < nout; r++) { printf(" "); for (size_t j = 0; j < outw; j++) printf("%02x", orow[r][j]); }
+    long o; int bad = 0;
+    for (int i = 0; i < nactive; i++) if (gslack_bad(active[i], &o)) bad = 1;
+    printf(" ; canary=%s det=same\n", bad ? "bad:b0@0" : "ok");
+  }
+  gfree_all();
+}
 #else
 static void run_kern_case(const char *line) { (void)line; printf("nosimd\n"); }
+static void run_kv_case(const char *line) { (void)line; printf("nosimd\n"); }
 #endif
 
 int main(void)
 {
-  static char line[4096];
+  static char line[65536];
   struct sigaction sa;
   setvbuf(stdout, NULL, _IOLBF, 0);
   memset(&sa, 0, sizeof sa);
@@ -881,6 +958,7 @@ int main(void)
     if (!strncmp(line, "pk ", 3) || !strncmp(line, "yuv ", 4) || !strncmp(line, "hist ", 5)) run_api_case(line);
     else if (!strncmp(line, "kern ", 5)) run_kern_case(line);
     else if (!strncmp(line, "rs ", 3)) run_rs_case(line);
+    else if (!strncmp(line, "kv ", 3)) run_kv_case(line);
     else if (!strncmp(line, "big ", 4)) run_big_case(line);
     else if (!strncmp(line, "simd", 4)) {
 #ifdef WITH_SIMD
